@@ -105,6 +105,14 @@ def run(prop, tier):
         macros, enums, types = names_of(inc, h)
         facts[h] = compile_probe(inc, h, macros + enums, types, b) or {}
         nfacts += len(facts[h])
+    # planted-bug self-test: a fact that is deliberately off by one must make its translation unit fail
+    hplant = next(h for h in hs if facts[h])
+    bad = {hplant: dict(facts[hplant])}
+    k0 = sorted(bad[hplant])[0]
+    bad[hplant][k0] += 1
+    pp = subprocess.run(LANGS[0][1] + ['-fsyntax-only', '-w', '-I' + inc, '-'], input=tu_text((hplant,), bad), stdout=subprocess.PIPE, stderr=subprocess.PIPE, text=True)
+    if pp.returncode == 0:
+        core.die_infra('C20 self-test: a planted wrong value for %s did not fail the generated translation unit' % (k0,))
     configs = [('single', (h,)) for h in hs]
     configs += [('pair', (a, c)) for a in hs for c in hs if a != c]
     full = [('set', tuple(hs)), ('set', tuple(reversed(hs)))]
@@ -217,7 +225,7 @@ def run(prop, tier):
     core.finish('C20', tier, t0, res, rule='configurations = each header alone, all %d ordered pairs, full set in %d orders (thorough: + triples through hub headers) x {gcc -std=gnu99, g++}; each TU includes the headers and asserts every public integer name (%d facts: macros, enumerators, sizeof) against its value when the header is included alone; a set/triple failure explained by a failing ordered pair inside it is attributed to the pair' % (len(hs) * (len(hs) - 1), len(full) if tier != 'thorough' else nrot + 2, nfacts),
                 bounds={'headers': len(hs), 'configurations': len(configs), 'languages': 2, 'facts': nfacts, 'masked_by_pair': masked},
                 assumptions=['GNU C as the project uses it (zero-length arrays accepted); -pedantic diagnostics are not violations', 'pairwise conflicts plus the sampled larger sets; a conflict needing three specific headers outside the enumerated sets is not seen in quick'],
-                recipe={'engine': 'c20'}, samples=samples, extra_cov={'compilations': len(jobs)})
+                recipe={'engine': 'c20'}, samples=samples, extra_cov={'compilations': len(jobs), 'planted_bug_selftest': 'a deliberately wrong value for %s %s made its translation unit fail, as required' % k0})
 
 
 def replay(prop, case):
